@@ -363,7 +363,7 @@ impl<'a> Gen<'a> {
 
     pub fn stmt(&mut self, depth: usize) {
         let d = depth.saturating_sub(1);
-        let choice = self.rng.below(44);
+        let choice = self.rng.below(46);
         match choice {
             0..=5 => {
                 // local declaration
@@ -730,6 +730,29 @@ impl<'a> Gen<'a> {
                 }
                 self.line("ext_p(half(9), scaled({ factor = 2, floor = function(v) ext_p(\"user floor\", v) return -1 end }, 10))");
             }
+            40 if self.f.luau => {
+                // a function statement declared inside a loop that uses continue (same body, and an inner loop)
+                self.line("local handlers = {}");
+                self.line("for i = 1, 3 do");
+                self.indent += 1;
+                self.line("if i == 2 then continue end");
+                self.line("function handlers.latest() return i end");
+                self.line("ext_p(\"record\", i)");
+                self.indent -= 1;
+                self.line("end");
+                self.line("for i = 1, 2 do for j = 1, 2 do function handlers.inner() return j end end if i == 1 then continue end ext_p(\"outer\", i) end");
+                self.line("ext_p(handlers.latest())");
+            }
+            41 if self.f.luau => {
+                // variables named like libraries as branch results (they may hold nil / false), and the forced-cast idiom
+                // on a multi-value expression
+                self.line("local function describe(cond, string, fallback) return if cond then string else fallback end");
+                self.line("local function pick(cond, table, math) return if cond then table elseif math then math else \"none\" end");
+                self.line("ext_p(describe(true, nil, \"n/a\"), describe(true, false, \"n/a\"), pick(true, false, 1), pick(false, 1, false))");
+                self.line("local function pair() return ext_n(1), ext_n(2) end");
+                self.line("ext_p((pair() :: any) :: number)");
+                self.line("ext_p(#{ (pair() :: any) :: number })");
+            }
             39 if self.f.luau => {
                 // a result that is false at run time next to a nil else: false and nil are different values
                 self.line("local fv = ext_b(1) == ext_b(1) and false");
@@ -759,7 +782,22 @@ impl<'a> Gen<'a> {
             35 if self.f.foldable => {
                 // adversarial shapes: a known-true guard in front of a multi-value call, a user
                 // variable named `_`, an unused local initialised by a field read, duplicate names
-                match self.rng.below(12) {
+                match self.rng.below(14) {
+                    12 => {
+                        // a used local whose name is shadowed by the first scope-creating statement that follows
+                        self.line("local kept = ext_n(1)");
+                        match self.rng.below(4) {
+                            0 => self.line("for kept = 1, 2 do ext_p(\"loop\", kept) end"),
+                            1 => self.line("local function shadowing(kept) return kept end"),
+                            2 => self.line("do local kept = 2 ext_p(kept) end"),
+                            _ => self.line("for kept, v in pairs({ 5 }) do ext_p(kept, v) end"),
+                        }
+                        self.line("ext_p(kept)");
+                    }
+                    13 => {
+                        // a statically truthy but effectful left operand of and / or
+                        self.line("ext_p({ ext_n(1) } and ext_n(2), not { ext_n(3) } or ext_n(4), ({ ext_n(5) }) and 7)");
+                    }
                     9 => {
                         // values of `and` / `or` whose known operand is falsy: the value is the FIRST falsy operand
                         self.line("local fl = ext_b(1)");
